@@ -5,7 +5,7 @@ import ast
 from typing import List, Optional, Set
 
 from .. import cfg as cfgmod
-from ..astutil import arg_of, call_name, is_attr_of, kwarg
+from ..astutil import alias_map, arg_of, call_name, expand_alias, is_attr_of, kwarg
 from ..index import AnalysisError, AnchorVanished, norm, short, walk_local
 
 LEVEL = "other"
@@ -327,7 +327,7 @@ def r20_5(ctx):
     v = passed(calls[0], ts_push, "inherit") if calls else None
     ctx.check(v is not None and norm(v) == "inherit", cpush.fq, short(calls[0]) if calls else "?", cpush.where, "Console.push_theme forwards inherit to the stack", "Console.push_theme does not forward `inherit` to ThemeStack.push_theme")
     cpop = cons.method("pop_theme")
-    ctx.check(cpop is not None and any(isinstance(x, ast.Call) and norm(x.func).endswith("_theme_stack.pop_theme") for x in walk_local(cpop.node)), cons.fq, "pop_theme", cpop.where if cpop else cons.fq, "Console.pop_theme pops the stack", "Console.pop_theme does not pop the theme stack")
+    ctx.check(cpop is not None and any(isinstance(x, ast.Call) and norm(expand_alias(x.func, alias_map(cpop.node))).endswith("_theme_stack.pop_theme") for x in walk_local(cpop.node)), cons.fq, "pop_theme", cpop.where if cpop else cons.fq, "Console.pop_theme pops the stack", "Console.pop_theme does not pop the theme stack")
 
 
 def r20_6(ctx):
@@ -335,7 +335,11 @@ def r20_6(ctx):
     f = ctx.repo.fn("console:Console.get_style")
     name_p = f.params[1]
     g = cfgmod.build(f.node)
-    stack_get = [nd for nd in g.stmt_nodes() if nd.kind == "stmt" and isinstance(nd.stmt, ast.Assign) and norm(nd.stmt.value) == f"self._theme_stack.get({name_p})"]
+    al206 = alias_map(f.node)
+
+    def _is_stack_get(v):
+        return isinstance(v, ast.Call) and len(v.args) == 1 and norm(v.args[0]) == name_p and norm(expand_alias(v.func, al206)) == "self._theme_stack.get"
+    stack_get = [nd for nd in g.stmt_nodes() if nd.kind == "stmt" and isinstance(nd.stmt, ast.Assign) and _is_stack_get(nd.stmt.value)]
     ctx.check(len(stack_get) == 1, f.fq, f"self._theme_stack.get({name_p})", f.where, "theme stack consulted with the name", "get_style no longer looks the name up in the theme stack")
     if stack_get:
         var = norm(stack_get[0].stmt.targets[0])
